@@ -368,7 +368,7 @@ func run(ctx context.Context, t interface {
 func TestClean(t *testing.T) {
 	r := evid.R()
 	ctx := context.Background()
-	r.Check(t, r.Scale(250, 3000), 1, func(t *rapid.T) {
+	r.Check(t, r.Scale(250, 2400), 1, func(t *rapid.T) {
 		run(ctx, t, r, genCase(t, false))
 	})
 }
@@ -376,7 +376,7 @@ func TestClean(t *testing.T) {
 func TestPlanted(t *testing.T) {
 	r := evid.R()
 	ctx := context.Background()
-	r.Check(t, r.Scale(700, 12000), 2, func(t *rapid.T) {
+	r.Check(t, r.Scale(700, 9000), 2, func(t *rapid.T) {
 		run(ctx, t, r, genCase(t, true))
 	})
 }
